@@ -1,6 +1,25 @@
-(* C07 - the lexer agrees with the PICO-8/Lua lexical grammar.  Property theorems only. *)
-From PV Require Import Base.Prelude Generated.T_lexer Model.Lexer Spec.LuaLex Proofs.LexerProofs.
+(* C07 - the lexer agrees with the PICO-8/Lua lexical grammar.  Property theorems only; proofs live in
+   Proofs/LexerProofs.v, Proofs/LexerInv.v. *)
+From PV Require Import Base.Prelude Generated.T_lexer Model.Lexer Spec.LuaLex Proofs.LexerProofs Proofs.LexerInv.
 
+(* first match in the regenerated table order = longest match, for every input *)
 Theorem C07_symbols_longest : forall s, first_match symbols s = longest_match symbols s.
 Proof. exact symbols_longest. Qed.
 Print Assumptions C07_symbols_longest.
+
+(* ... and the regenerated symbol set is the reference set of the dialect *)
+Theorem C07_symbols_same_set : forall s, first_match symbols s = longest_match spec_symbols s.
+Proof. exact symbols_longest_spec. Qed.
+Print Assumptions C07_symbols_same_set.
+
+(* nothing dropped, nothing duplicated: the extents of the tokens concatenate to the input, any chunking *)
+Theorem C07_cover : forall chunks ts, model_lex chunks = Ok ts -> concat (map t_ext ts) = concat chunks.
+Proof. exact model_lex_cover. Qed.
+Print Assumptions C07_cover.
+
+(* every token carries the line/column reached after the extents of the tokens before it, any chunking *)
+Theorem C07_positions : forall chunks ts i t,
+  model_lex chunks = Ok ts -> nth_error ts i = Some t ->
+  (t_line t, t_col t) = advance (0, 0) (concat (map t_ext (firstn i ts))).
+Proof. exact model_lex_positions. Qed.
+Print Assumptions C07_positions.
